@@ -265,10 +265,11 @@ int main(int argc, char **argv) {
         size_t nt = cs.song.tracks.size();
         cs.cfg.mult = *rc::gen::weightedOneOf<double>({{3, rc::gen::just(1.0)}, {3, rc::gen::element(0.25, 0.5, 1.5, 4.0)}, {1, rc::gen::map(rng<int>(10, 800), [](int v) { return v / 100.0; })}});
         cs.cfg.gran_sel = *rng<int>(0, 2); cs.cfg.step_policy = *rng<int>(0, 2); cs.cfg.step_sel = *rng<int>(0, 5); cs.cfg.rate_sel = *rng<int>(0, 2);
-        int gate = *rng<int>(0, 5);
-        if(gate == 1 && nt > 1) cs.cfg.solo = *rng<int>(0, (int)nt - 1);
-        if(gate == 2 && nt > 1) cs.cfg.track_off_mask = (unsigned)*rng<int>(1, (1 << nt) - 1);
-        if(gate == 3) cs.cfg.chan_off_mask = (unsigned)*rng<int>(1, 65535);
+        int gate = *rng<int>(0, 7);
+        if((gate == 1 || gate == 4 || gate == 5) && nt > 1) cs.cfg.solo = *rng<int>(0, (int)nt - 1);
+        if((gate == 2 || gate == 4 || gate == 5) && nt > 1) cs.cfg.track_off_mask = (unsigned)*rng<int>(1, (1 << nt) - 1);   // gate 4/5: solo AND off together (also on the same track: off wins)
+        if(gate == 5 && cs.cfg.solo >= 0) cs.cfg.track_off_mask |= 1u << cs.cfg.solo;
+        if(gate == 3 || gate == 5) cs.cfg.chan_off_mask = (unsigned)*rng<int>(1, 65535);
         cs.cfg.audio = audio;
         if(audio) {
             cs.cfg.req = *rc::gen::container<std::vector<int>>(4, rc::gen::weightedOneOf<int>({{3, rc::gen::element(2, 3, 512, 1024, 1025, 2048, 4097, 70000)}, {2, rng<int>(2, 5000)}}));
